@@ -14,11 +14,11 @@ add("C02", "model_checking",
     "trusted: c02::decomposition_issues; cases on which the library panics are left to C01",
     "bounded-exhaustive enumeration of (history, buffer, configuration) with a relational oracle", "DESIGN.md §5 C02", "E-ENUM")
 add("C03", "exploration",
-    "Bounded-exhaustive enumeration of V5/V7 input shapes on the real parse_bytes against an independent offset-table decoder: every byte offset x all 256 values of two byte-distinct packets, all field pairs x boundary values, every count 0..=65535 over short and maximal buffers, every materialisable record count, all 256 protocol numbers, every proper prefix. Stateless property over inputs, so exhaustive enumeration of the shape space is the deciding step.",
+    "Bounded-exhaustive enumeration of V5/V7 input shapes on the real parse_bytes against an independent offset-table decoder: every byte offset x all 256 values of two byte-distinct packets, all field pairs x boundary values, three-record packets whose middle record differs from its neighbours in exactly one byte (every byte, two values), every count 0..=65535 over short and maximal buffers, every materialisable record count, all 256 protocol numbers, every proper prefix. Stateless property over inputs, so exhaustive enumeration of the shape space is the deciding step.",
     "trusted: reference decoder refmodel::ref_fixed and the IANA keyword table mc/src/iana.rs; byte values beyond the walking-byte/boundary alphabets are not covered",
     "bounded-exhaustive input enumeration vs reference decoder (explicit-state, stateless)", "DESIGN.md §5 C03", "E-ENUM")
 add("C06", "model_checking",
-    "Explicit-state model checking of the real template caches: stateright BFS to the FIXPOINT of the reachable graph whose states are (canonical content of the real caches of every parser instance, reference latest-wins cache) and whose transitions apply one action of an about 70-action-per-instance alphabet (T/OT/D/TD/DT/[T++D] for V9 and IPFIX over two or three ids and two or three layouts, the same from another exporter (other source id / observation domain), multi-record template flowsets incl. one id defined twice, flowsets/messages truncated inside their first or second template record, sets with unused or reserved ids whose body is a well-formed template record, ill-formed and withdrawal-shaped template records, record-less data sets, V5, V7, garbage, unknown version, truncated and incomplete templates, mixed buffer) with the real parse_bytes, on two instances with different allowed sets. Every transition checks: decode = reference under the latest definition; caches = reference prediction (so inert input changes nothing); no eviction; instance and protocol isolation; buffer = one-packet-per-call delivery; and soundness of state merging (parser rebuilt from the snapshot vs parsers that replayed the full interleaved history). Complemented by (a) a bounded exploration WITHOUT state merging - every history of <=3 (thorough 4) calls over the single-id two-instance alphabet, last call judged against the reference - which sees state kept outside the caches, and (b) an explicit never-evicted-at-scale enumeration (up to 65 279 distinct ids).",
+    "Explicit-state model checking of the real template caches: stateright BFS to the FIXPOINT of the reachable graph whose states are (canonical content of the real caches of every parser instance, reference latest-wins cache) and whose transitions apply one action of an about 70-action-per-instance alphabet (T/OT/D/TD/DT/[T++D] for V9 and IPFIX over two or three ids and two or three layouts, the same from another exporter (other source id / observation domain), multi-record template flowsets incl. one id defined twice, flowsets/messages truncated inside their first or second template record, sets with unused or reserved ids whose body is a well-formed template record, ill-formed and withdrawal-shaped template records, definitions with 300 fields (in the one-instance configuration that also uses template ids equal to template-set ids), record-less data sets, V5, V7, garbage, unknown version, truncated and incomplete templates, mixed buffer) with the real parse_bytes, on two instances with different allowed sets. Every transition checks: decode = reference under the latest definition; caches = reference prediction (so inert input changes nothing); no eviction; instance and protocol isolation; buffer = one-packet-per-call delivery; and soundness of state merging (parser rebuilt from the snapshot vs parsers that replayed the full interleaved history). Complemented by (a) a bounded exploration WITHOUT state merging - every history of <=3 (thorough 4) calls over the single-id two-instance alphabet, last call judged against the reference - which sees state kept outside the caches, and (b) an explicit never-evicted-at-scale enumeration (up to 65 279 distinct ids).",
     "closed under the stated alphabet only; trusted: refmodel.rs, explore.rs, stateright's fingerprint deduplication",
     "explicit-state model checking of the implementation (stateright BFS to fixpoint) against a reference model", "DESIGN.md §5 C06", "E-HIST")
 add("C07", "model_checking",
@@ -48,11 +48,11 @@ add("C10", "model_checking",
     "trusted: reexport.rs",
     "bounded-exhaustive enumeration of call histories with a round-trip oracle (explicit-state)", "DESIGN.md §5 C10", "E-ENUM")
 add("C11", "model_checking",
-    "Every sequence of 1..=5 (thorough 6) packets over the 18-packet menu (17 self-delimiting packets and V9 data for an absent id; a sequence whose only failing packet is its last one is in the domain; header fields - source id, observation domain, sequence number, clocks - varying with the position) (all four versions, templates defined by early packets and needed by later ones, IPFIX data for an absent id) is delivered under ALL 2^(n-1) partitions into consecutive parse_bytes calls on a fresh parser; concatenated results and final cache snapshot must equal one-packet-per-call delivery. Every sequence of <=4 packets over a 10-packet large-cache menu (1 100 definitions per packet; an options template empty on both sides) likewise. Maximal chains up to the datagram limit are compared all-in-one vs one-per-call.",
+    "Every sequence of 1..=5 (thorough 6) packets over the 18-packet menu (17 self-delimiting packets and V9 data for an absent id; a sequence whose only failing packet is its last one is in the domain; header fields - source id, observation domain, sequence number, clocks - varying with the position) (all four versions, templates defined by early packets and needed by later ones, IPFIX data for an absent id) is delivered under ALL 2^(n-1) partitions into consecutive parse_bytes calls on a fresh parser; concatenated results and final cache snapshot must equal one-packet-per-call delivery. Every sequence of <=4 packets over a 13-packet large-cache menu (1 100 definitions per packet; an options template empty on both sides; one id announced as an options template in two layouts and as a plain template, each followed by its data) likewise. Maximal chains up to the datagram limit are compared all-in-one vs one-per-call.",
     "sequences whose one-per-call run contains an error element are outside the property's domain (counted, not judged); trusted: c11::judge",
     "bounded-exhaustive enumeration of sequences x all partitions (stateless exploration of real code, differential oracle)", "DESIGN.md §5 C11", "E-ENUM")
 add("C12", "model_checking",
-    "All 64 allowed-version sets (16 subsets of {5,7,9,10} x extras {none, {6}, {0,11,65535}, 24 numbers aliasing 5/7/9/10 under mod-2^k masks and byte swap}) x every buffer of 1..=3 (thorough 4) packets over a 29-packet menu (incl. three one-byte tails and five well-formed packets whose version field aliases a real one in its low byte or byte-swapped) x 6 prior histories delivered under the configuration (two contain unparsable versions and garbage) and 3 delivered before the configuration is narrowed, the buffer delivered twice; EVERY call of the history is compared with a parser that allows all 65 536 versions started from the state the subject should be in: result = maximal leading part with allowed versions; caches = those of the all-allowing parser fed only that part; unknown allowed versions are UnknownVersion errors; allowed_versions itself is unchanged by every call; independently of the all-allowing run, every result must be a decomposition of its buffer that ends silently only in front of a version outside S (C02's law).",
+    "All 64 allowed-version sets (16 subsets of {5,7,9,10} x extras {none, {6}, {0,11,65535}, 24 numbers aliasing 5/7/9/10 under mod-2^k masks and byte swap}) x every buffer of 1..=3 (thorough 4) packets over a 29-packet menu (incl. three one-byte tails and five well-formed packets whose version field aliases a real one in its low byte or byte-swapped) x 6 prior histories delivered under the configuration (two contain unparsable versions and garbage) and 3 delivered before the configuration is narrowed, the buffer delivered twice; EVERY call of the history is compared with a parser that allows all 65 536 versions started from the state the subject should be in: result = maximal leading part with allowed versions; caches = those of the all-allowing parser fed only that part; unknown allowed versions are UnknownVersion errors; allowed_versions itself is unchanged by every call; independently of the all-allowing run, every result must be a decomposition of its buffer that ends silently only in front of a version outside S (C02's law); and on two fresh parsers carrying the same configuration and history the flattening helper parse_bytes_as_netflow_common_flowsets must return exactly the flows of what parse_bytes reports and leave the same caches.",
     "trusted: c12::judge",
     "bounded-exhaustive enumeration of configurations x buffers x states (differential oracle)", "DESIGN.md §5 C12", "E-ENUM")
 add("C13", "model_checking",
